@@ -190,9 +190,17 @@ static void Apply(World& w, const json& c, const json& wit, size_t step, vh::Rep
     // save the document, destroy the schema object (which closes its sources), load the document with the items rotated,
     // re-open every source through the new object
     nlohmann::ordered_json doc = ossRef;
-    auto& items = doc["items"]; const size_t n = items.size(); const size_t rot = n == 0 ? 0 : c["n"].get<size_t>() % n;
+    auto& items = doc["items"]; const size_t n = items.size(); const size_t rot = n == 0 ? 0 : (c["n"].get<size_t>() % 3) % n;
     nlohmann::ordered_json rotated = nlohmann::ordered_json::array(); for (size_t i = 0; i < n; ++i) rotated.push_back(items[(i + rot) % n]);
     doc["items"] = rotated;
+    // n >= 3: the connections are interleaved as well (all first parents, then all second parents): every child's own parent
+    // order is kept, only the order in which pictograms are first mentioned changes
+    if (c["n"].get<size_t>() >= 3) {
+      auto& con = doc["connections"]; nlohmann::ordered_json first = nlohmann::ordered_json::array(), second = nlohmann::ordered_json::array(); std::set<nlohmann::ordered_json> seen;
+      for (const auto& e : con) { if (seen.insert(e[0]).second) first.push_back(e); else second.push_back(e); }
+      for (const auto& e : second) first.push_back(e);
+      doc["connections"] = first;
+    }
     std::map<PictID, bool> locked; for (const auto& pict : ossRef) if (auto* s = w.Src(pict.uid); s != nullptr) locked[pict.uid] = s->unwritable;
     w.oss.reset();
     w.oss = std::make_unique<OSSchema>();
@@ -311,7 +319,7 @@ static int Record(const vh::Args& args) {
       }
       else if (wgt < 52) {   // edit
         std::vector<std::pair<PictID, std::string>> can;
-        for (const auto p : all) if (auto* s = w.Src(p); s != nullptr) {
+        for (const auto p : all) if (auto* s = w.Data(p); s != nullptr) {
           const auto nb = BasesOf(s->schema).size(); const bool isOp = w.oss->Ops()(p) != nullptr;
           if (!isOp && nb < 3) can.push_back({ p, "addBase" });
           if (!isOp && nb >= 2) can.push_back({ p, "removeBase" });
@@ -322,21 +330,27 @@ static int Record(const vh::Args& args) {
         if (can.empty()) { --st; continue; }
         const auto c = can[g() % can.size()]; ev = ev0("Edit"); ev["p"] = c.first; ev["kind"] = c.second;
       }
-      else if (wgt < 64) { std::vector<PictID> linked; for (const auto p : all) if (w.Src(p) != nullptr) linked.push_back(p); if (linked.empty()) { --st; continue; } ev = ev0("Save"); ev["p"] = pick(linked); }
+      else if (wgt < 61) { std::vector<PictID> linked; for (const auto p : all) if (w.Data(p) != nullptr) linked.push_back(p); if (linked.empty()) { --st; continue; } ev = ev0("Save"); ev["p"] = pick(linked); }
+      else if (wgt < 63) { std::vector<PictID> linked; for (const auto p : all) if (w.Src(p) != nullptr) linked.push_back(p); if (linked.empty()) { --st; continue; } ev = ev0("Close"); ev["p"] = pick(linked); }
+      else if (wgt < 64) { std::vector<PictID> closed; for (const auto p : all) if (w.Src(p) == nullptr && w.Data(p) != nullptr) closed.push_back(p); if (closed.empty()) { --st; continue; } ev = ev0("Open"); ev["p"] = pick(closed); }
       else if (wgt < 76) {
         if (opsL.empty()) { --st; continue; }
         const auto p = pick(opsL); const auto parents = w.oss->Graph().ParentsOf(p);
+        // not taken: re-defining an operation that has a result while a child's equation table names one of its base sets
+        bool named = false; for (const auto ch : w.oss->Graph().ChildrenOf(p)) if (const auto* eq = dynamic_cast<const ops::EquationOptions*>(w.oss->Ops()(ch)->options.get()); eq != nullptr && !eq->empty()) named = true;
+        if (named && w.Data(p) != nullptr) { --st; continue; }
         const bool bothBases = w.oss->Ops()(parents[0]) == nullptr && w.oss->Ops()(parents[1]) == nullptr;
         const int k = static_cast<int>(g() % (labelled ? 4 : bothBases ? 3 : 2));
         ev = ev0("InitFor"); ev["p"] = p; ev["type"] = k == 0 ? "merge" : "synt"; ev["table"] = k == 0 ? -1 : k - 1;
       }
       else if (wgt < 90) { if (opsL.empty()) { --st; continue; } ev = ev0("Execute"); ev["p"] = pick(opsL); }
       else if (wgt < 94) { if (opsL.empty()) { --st; continue; } ev = ev0("ExecuteAll"); }
-      else if (wgt < 96) { std::vector<PictID> res; for (const auto p : opsL) if (auto* s = w.Src(p); s != nullptr && !s->unwritable) res.push_back(p); if (res.empty()) { --st; continue; } ev = ev0("Lock"); ev["p"] = pick(res); }
+      else if (wgt < 96) { std::vector<PictID> res; for (const auto p : opsL) if (auto* s = w.Data(p); s != nullptr && !s->unwritable) res.push_back(p); if (res.empty()) { --st; continue; } ev = ev0("Lock"); ev["p"] = pick(res); }
       else {   // reload only when nothing is pending: announce everything first (as separate events)
         bool pending = false;
+        for (const auto p : all) if (w.Src(p) == nullptr && w.Data(p) != nullptr) { json op = ev0("Open"); op["p"] = p; Apply(w, op, json(), 0, rep, false); op["view"] = ViewOf(w); out << op.dump() << std::endl; ++events; }
         for (const auto p : all) if (auto* s = w.Src(p); s != nullptr) { json sv = ev0("Save"); sv["p"] = p; Apply(w, sv, json(), 0, rep, false); sv["view"] = ViewOf(w); out << sv.dump() << std::endl; ++events; (void)pending; }
-        ev = ev0("Reload"); ev["n"] = static_cast<int>(g() % 3);
+        ev = ev0("Reload"); ev["n"] = static_cast<int>(g() % 6);
       }
       Apply(w, ev, json(), static_cast<size_t>(st), rep, false);
       ev["view"] = ViewOf(w);
